@@ -33,6 +33,9 @@ _T = {}
 _P = {}
 
 
+CREATION = []  # (what, detail) problems met while creating types from restriction sets; flushed as violations by the caller
+
+
 def rtype(base, rs, join):
     key = (base, tuple(sorted(rs)), join)
     if key not in _T:
@@ -40,8 +43,19 @@ def rtype(base, rs, join):
             given = list(rs)
             _T[key] = restricted_number_type(None, base, given, join=join)
             given[:] = [("==", 424242)]  # the caller goes on using its list: the type keeps what it was created with
-        except ValueError:
-            _T[key] = None  # same restriction as a predefined type / automatic-name clash
+        except ValueError as ex:
+            _T[key] = None  # same restriction as a predefined type
+            if "already registered with a different name" not in str(ex):
+                # a restriction set of its own that cannot be turned into a type (automatic names of two different sets collide)
+                CREATION.append(("restriction-set-cannot-be-created/automatic-name", dict(base=base.__name__, rs=list(rs), join=join, error=str(ex))))
+        if _T[key] is not None and len(rs) > 1:
+            # the same comparisons listed in another order are the same restriction set
+            try:
+                again = restricted_number_type(None, base, list(reversed(rs)), join=join)
+                if again is not _T[key]:
+                    CREATION.append(("same-restriction-set-in-another-order-gives-another-type", dict(base=base.__name__, rs=list(rs), join=join)))
+            except ValueError as ex:
+                CREATION.append(("same-restriction-set-in-another-order-refused", dict(base=base.__name__, rs=list(rs), join=join, error=str(ex))))
     return _T[key]
 
 
@@ -110,6 +124,10 @@ def _quiet_ok(t, x):
 
 def check_number(ctx, rng, base, rs, join):
     tp = rtype(base, rs, join)
+    while CREATION:
+        what, detail = CREATION.pop()
+        ctx.violation("restricted", f"number/create/{what}", detail)
+    ctx.count("mon.restriction_sets_created_in_both_orders" if len(rs) > 1 else "mon.restriction_sets_created")
     if tp is None:
         ctx.count("restriction_sets_skipped_predefined_or_name_clash")
         return
